@@ -239,6 +239,10 @@ func errCannotFindGoType(dt datatype.DataType) error {
 	return fmt.Errorf("could not find any suitable Go type for CQL type %v", dt)
 }
 
+func errMapKeyTypeNotComparable(dt datatype.DataType, keyType reflect.Type) error {
+	return fmt.Errorf("could not find any suitable Go type for CQL type %v: Go type %v cannot be used as a map key", dt, keyType)
+}
+
 func errDestinationInvalid(dest interface{}) error {
 	if dest == nil {
 		return ErrNilDestination
